@@ -39,6 +39,7 @@ var hAllowMenu = [][]hEgressRule{
 	{{text: "10.0.0.0/8", prefix: []byte{10, 0, 0, 0}, bits: 8}},
 	{{text: "api.example.com", host: "api.example.com"}, {text: "*.other.test", host: "other.test", sub: true}},
 	{{text: "198.51.100.5", prefix: []byte{198, 51, 100, 5}, bits: 32}},
+	{{text: "*.example.com", host: "example.com", sub: true}, {text: "example.com", host: "example.com"}},
 }
 
 var hDenyMenu = [][]hEgressRule{
@@ -47,6 +48,9 @@ var hDenyMenu = [][]hEgressRule{
 	{{text: "*.example.com", host: "example.com", sub: true}},
 	{{text: "203.0.113.7", prefix: []byte{203, 0, 113, 7}, bits: 32}},
 	{{text: "API.Example.COM.", host: "api.example.com"}},
+	{{text: "example.com", host: "example.com"}, {text: "*.example.com", host: "example.com", sub: true}},
+	{{text: "*.example.com", host: "example.com", sub: true}, {text: "example.com", host: "example.com"}},
+	{{text: "10.0.0.0/8", prefix: []byte{10, 0, 0, 0}, bits: 8}, {text: "10.1.2.3", prefix: []byte{10, 1, 2, 3}, bits: 32}, {text: "bad.example.com", host: "bad.example.com"}, {text: "bad.example.com", host: "bad.example.com"}},
 }
 
 func hRuleMatches(r hEgressRule, host string, ip []byte) bool {
@@ -68,7 +72,7 @@ func hRuleMatches(r hEgressRule, host string, ip []byte) bool {
 }
 
 // verif:harness props=C16 tier=quick weight=90
-// verif:bounds END TO END from configuration text: defaults.egress with https_only on/off, dns_rebind_protection on/off, an allow list from 6 menus and a deny list from 5 menus (exact host, *.domain, IPv4 address, CIDR, mixed case with trailing dot), one deliver route; real Parse -> Compile -> the policy handed to dispatcher.NewHTTPDeliverer exactly as app.run builds it (mapEgressRules is real) -> real Deliver with a stub resolver (public address; names starting "inner." resolve to 10.9.9.9) and a havoc HTTP client; target URL from 10 spellings (https/http, apex, sub-domain, other domain, IP literals public/private, upper case, trailing dot)
+// verif:bounds END TO END from configuration text: defaults.egress with https_only on/off, dns_rebind_protection on/off, an allow list from 7 menus and a deny list from 8 menus (exact host, *.domain, the same domain as exact host AND as *.domain in either order, IPv4 address, CIDR, overlapping CIDR + address, a rule written twice, mixed case with trailing dot), one deliver route; real Parse -> Compile -> the policy handed to dispatcher.NewHTTPDeliverer exactly as app.run builds it (mapEgressRules is real) -> real Deliver with a stub resolver (public address; names starting "inner." resolve to 10.9.9.9) and a havoc HTTP client; target URL from 10 spellings (https/http, apex, sub-domain, other domain, IP literals public/private, upper case, trailing dot)
 func VerifC16EgressFromText() {
 	httpsOnly := vrt.Choose("https-only", 2) == 1
 	rebind := vrt.Choose("dns-rebind-protection", 2) == 1
